@@ -347,6 +347,15 @@ def getattr_value(interp, st, base, attr, node=None):
         if f.classmethod_:
             return I.BoundMethod(cref, f)
         return I.BoundMethod(base, f, node.value if node is not None else None)
+    if isinstance(base, I.SuperRef):
+        r = class_attr(interp, base.base, attr) if base.base is not None else None
+        if isinstance(r, tuple) and isinstance(r[0], I.RepoFunc):
+            return I.BoundMethod(base.self_val, r[0], ast.Name(id="self", ctx=ast.Load()))
+        if attr == "__init__":
+            if any(isinstance(n_, ast.AnnAssign) for c in class_mro(interp, base.base) for n_ in c.node.body):
+                return I.Native("super().__init__", lambda interp_, st_, a, kw, nd: super_dataclass_init(interp_, st_, base, a, kw, nd))
+            return I.Opaque("super().__init__")
+        raise Outside(f"super().{attr}", node)
     if isinstance(base, DynInstance):
         return dyn_getattr(interp, st, base, attr, node)
     if isinstance(base, I.ClassRef):
@@ -573,6 +582,7 @@ def call_closure(interp, st, clo, args, kwargs, node):
     if isinstance(fnode, ast.Lambda):
         sub = I.State(env, st.pc, st.guards, clo.mod, clo.cls)
         sub.excs = st.excs
+        sub.binders = st.binders  # a lambda evaluated under a binder (filter / map / comprehension) stays under it
         v = interp.ev(fnode.body, sub)
         return v
     return inline_body(interp, st, fnode, env, clo.mod, clo.cls, node)
@@ -586,6 +596,7 @@ def inline_body(interp, st, fnode, env, mod, cls, node):
     sub = I.State(env, list(st.pc), [], mod, cls)
     if st.guards:
         sub.pc.extend(to_z3(g) for g in st.guards)
+    sub.binders = list(getattr(st, "binders", []))
     sub.trace = list(st.trace)
     interp.ctx.inline_depth += 1
     try:
